@@ -6,6 +6,7 @@ import itertools
 
 import numpy as np
 from hypothesis import strategies as st
+from scipy import sparse
 
 import pyttb as ttb
 
@@ -82,7 +83,9 @@ def dense_of(case):
         w, F = cp_parts(case)
         return ref.den_kruskal(w, F)
     if fam == "sparse":
-        return gen.dense_of_sparse_case(case)
+        return gen.dense_of_sparse_case(case) * float(case.get("vscale", 1.0))
+    if fam == "block":
+        return block_dense(case)
     raise ValueError(fam)
 
 
@@ -107,47 +110,298 @@ def cp_parts(case):
 
 
 # ----------------------------------------------------------------------------------------------------------------
+# block family: integer data whose mode-n Gram matrix is exactly block diagonal with rank-one blocks, so that the
+# leading mode-n vectors have a prescribed *exact* structure (entries summing exactly to zero, few nonzero entries,
+# sign symmetry, exact ties in magnitude), in mode sizes above the solvers' internal thresholds
+# ----------------------------------------------------------------------------------------------------------------
+
+# coefficient vectors of a block: rows rows[i] of the mode-n unfolding are coef[i] * x on the block's own columns;
+# the block contributes the eigenvalue |coef|^2 |x|^2 with eigenvector coef/|coef| (zero elsewhere)
+STRUCTS = {
+    "sum0-211": [2, -1, -1],           # sums to zero exactly, also after any scaling (power-of-two multiples)
+    "sum0-pair": [1, -1],              # two entries, tie in magnitude
+    "sum0-signsym": [1, 1, -1, -1],    # sign-symmetric
+    "sum0-wide": [1, -1, 1, -1, 1, -1],
+    "sum0-generic": [3, -1, -2],       # sums to zero in exact arithmetic only
+    "unit": [1],                       # a single entry
+    "ones": [1, 1, 1],                 # parallel to the all-ones direction on its support
+    "generic": [3, -1, 2],
+}
+LEAD_STRUCTS = ["sum0-211", "sum0-211", "sum0-pair", "sum0-signsym", "sum0-wide", "sum0-generic", "unit", "ones", "generic"]
+
+
+def expand_blocks(I, P, structs, rseed, lead_mag):
+    """Deterministic expansion of (mode size, unfolding width, block structures, seed) into explicit blocks + filler.
+    Eigenvalues decrease with the block index, consecutive ones at least 0.4 % of the first apart as long as the
+    integer grid allows; the filler (rows outside every block, columns outside every block) stays far below."""
+    rng = np.random.default_rng(int(rseed))
+    rows = [int(v) for v in rng.permutation(I)]
+    cols = [int(v) for v in rng.permutation(P)]
+    blocks = []
+    lam_prev = None
+    lam0 = None
+    for name in structs:
+        coef = STRUCTS[name]
+        if len(coef) > len(rows) or not cols:
+            break
+        ncol = int(min(len(cols), rng.integers(1, 4)))
+        if len(cols) - ncol < 0:
+            break
+        c2 = sum(c * c for c in coef)
+        small = [int(v) for v in rng.integers(1, 4, size=ncol - 1) * rng.choice([-1, 1], size=ncol - 1)]
+        s2 = sum(v * v for v in small)
+        if lam_prev is None:
+            x0 = int(lead_mag)
+        else:
+            target = (lam_prev - max(1.0, 0.004 * lam0)) / c2 - s2
+            x0 = int(np.floor(np.sqrt(target))) if target >= 1 else 1
+            x0 = max(1, x0)
+        x = [x0 * int(rng.choice([-1, 1]))] + small
+        lam = c2 * (x0 * x0 + s2)
+        if lam0 is None:
+            lam0 = lam
+        lam_prev = min(lam, lam_prev) if lam_prev is not None else lam
+        blocks.append(dict(rows=rows[: len(coef)], coef=list(coef), cols=cols[:ncol], x=x, struct=name))
+        rows, cols = rows[len(coef):], cols[ncol:]
+    filler = []
+    if cols and rows:
+        for rw in rows[: max(0, len(rows) - 2)]:  # the last two free rows stay empty slices
+            for _ in range(int(rng.integers(1, 3))):
+                filler.append([rw, int(rng.choice(cols)), int(rng.choice([-1, 1]))])
+    return blocks, filler
+
+
+def block_unfolding(case):
+    shape = tuple(case["shape"])
+    n = case["n"]
+    I = shape[n]
+    P = ref.prod(shape) // I
+    M = np.zeros((I, P))
+    for b in case["blocks"]:
+        M[np.ix_(b["rows"], b["cols"])] = np.outer(np.array(b["coef"], dtype=float), np.array(b["x"], dtype=float))
+    for rw, cl, v in case["filler"]:
+        M[rw, cl] = v
+    return M
+
+
+def block_dense(case):
+    return fold(block_unfolding(case), case["n"], tuple(case["shape"])) * float(case.get("vscale", 1.0))
+
+
+# ----------------------------------------------------------------------------------------------------------------
 # holders of the same data
 # ----------------------------------------------------------------------------------------------------------------
 
 
-def as_tensor(X):
-    return ttb.tensor(X.copy(order="F"), tuple(X.shape))
+INT_DTYPES = ("int64", "int32", "uint8")
 
 
-def as_sptensor(X, stored="sorted"):
+def int_dtype_of(case, X):
+    """numpy dtype name when the case asks for integer storage and the data allow it (integer valued, in range), else None"""
+    dt = case.get("dtype")
+    if dt not in INT_DTYPES or not ref.is_intvalued(X):
+        return None
+    info = np.iinfo(dt)
+    if X.size and (X.min() < info.min or X.max() > info.max):
+        return None
+    return dt
+
+
+def den(obj):
+    """ref.den, extended to Tucker tensors whose factor matrices are scipy coo matrices (the constructor admits them)"""
+    if isinstance(obj, ttb.ttensor) and any(sparse.issparse(f) for f in obj.factor_matrices):
+        return ref.den_tucker(ref.den(obj.core), [f.toarray() if sparse.issparse(f) else f for f in obj.factor_matrices])
+    return ref.den(obj)
+
+
+def den_abs(obj):
+    """the array denoted by the absolute values of the attributes: bounds the rounding noise any evaluation of the
+    object carries (entries of den(obj) far below it are cancellation noise, not data)"""
+    if isinstance(obj, ttb.ktensor):
+        return ref.abs_kruskal(obj.weights, obj.factor_matrices)
+    if isinstance(obj, ttb.ttensor):
+        return ref.den_tucker(np.abs(ref.den(obj.core)), [np.abs(f.toarray() if sparse.issparse(f) else f) for f in obj.factor_matrices])
+    return np.abs(ref.den(obj))
+
+
+def _same(obj, X):
+    """the object denotes X (derived states come out of public operations that other properties judge; an operation
+    that misbehaves must not turn into a C14 alarm, the holder falls back to the constructor)"""
+    try:
+        D = den(obj)
+    except Exception:  # noqa: BLE001
+        return False
+    scale = float(np.max(np.abs(X), initial=0.0))
+    return D.shape == tuple(X.shape) and float(np.max(np.abs(D - X), initial=0.0)) <= 1e-13 * scale
+
+
+TENSOR_STATES = ["ctor", "ctor", "grown", "grown", "c-order-input", "round-trip-permute", "from-sptensor", "from-ttensor"]
+
+
+def as_tensor(X, case=None):
+    """dense holder; returns (object, state label)"""
+    case = case or {}
+    dt = int_dtype_of(case, X)
+    if dt is not None:
+        return ttb.tensor(np.asfortranarray(X.astype(dt)), tuple(X.shape)), "dtype-" + dt
+    state = case.get("state", "ctor")
+    T = None
+    try:
+        if state == "grown":
+            T = gen.build_tensor(dict(shape=list(X.shape), data=X.ravel(order="F").tolist(), prov="grown"))
+            if not gen.is_grown(T):
+                T = None
+        elif state == "c-order-input":
+            T = ttb.tensor(np.ascontiguousarray(X))
+        elif state == "round-trip-permute" and X.ndim >= 2:
+            p = np.roll(np.arange(X.ndim), 1)
+            T = ttb.tensor(X.copy(order="F"), tuple(X.shape)).permute(p).permute(np.argsort(p))
+        elif state == "from-sptensor":
+            # the result of one operation fed into the next: a converted sparse tensor
+            T = gen.build_sptensor(gen.sparse_case_from_dense(X)).to_tensor()
+        elif state == "from-ttensor":
+            # ... a reconstructed Tucker tensor with permutation factors (exact)
+            T = as_ttensor(dict(case, family="other", state="ctor", dtype="float"), X, True).full()
+    except Exception:  # noqa: BLE001
+        T = None
+    if T is not None and isinstance(T, ttb.tensor) and tuple(int(v) for v in T.shape) == tuple(X.shape) and _same(T, X):
+        return T, "state-" + state
+    return ttb.tensor(X.copy(order="F"), tuple(X.shape)), "state-ctor"
+
+
+SPTENSOR_STATES = ["ctor", "ctor", "random-order", "explicit-zeros", "explicit-zeros", "npint-shape", "grown", "from-tensor",
+                   "round-trip-permute", "zeroed-by-assignment"]
+
+
+def as_sptensor(X, stored="sorted", case=None):
+    """sparse holder; returns (object, state label) when a case is given, else the object (old call form)"""
+    old_form = case is None
+    case = case or {}
     sc = gen.sparse_case_from_dense(X)
     if stored == "reverse":
         sc["subs"], sc["vals"] = sc["subs"][::-1], sc["vals"][::-1]
-    return gen.build_sptensor(sc)
+    if old_form:
+        return gen.build_sptensor(sc)
+    shape = tuple(X.shape)
+    nnz = len(sc["subs"])
+    subs = np.array(sc["subs"], dtype=int).reshape(nnz, X.ndim)
+    dt = int_dtype_of(case, X)
+    vals = np.array(sc["vals"], dtype=float).reshape(-1, 1)
+    label = None
+    if dt is not None:
+        vals = vals.astype(dt)
+        label = "dtype-" + dt
+    state = case.get("state", "ctor")
+    if state in ("explicit-zeros", "zeroed-by-assignment") and not (X == 0).any():
+        state = "random-order"  # nothing to store a zero at
+    rng = np.random.default_rng(int(case.get("tseed", 0)) + 5)
+    S = None
+    try:
+        if nnz == 0:
+            S = None
+        elif state == "random-order":
+            p = rng.permutation(nnz)
+            S = ttb.sptensor(subs[p], vals[p], shape)
+        elif state == "explicit-zeros":
+            zs = np.argwhere(X == 0)
+            if len(zs):
+                extra = zs[rng.permutation(len(zs))[: min(len(zs), 3)]]
+                s2 = np.vstack([subs, extra])
+                v2 = np.vstack([vals, np.zeros((len(extra), 1), dtype=vals.dtype)])
+                p = rng.permutation(len(s2))
+                S = ttb.sptensor(s2[p], v2[p], shape)
+        elif state == "npint-shape":
+            S = ttb.sptensor(subs, vals, tuple(np.int64(v) for v in shape))
+        elif state == "grown":
+            # construct without the last index of the last mode of size >= 2, then assign the missing entries
+            cand = [m for m, v in enumerate(shape) if v >= 2]
+            if cand:
+                m = cand[-1]
+                keep = subs[:, m] < shape[m] - 1
+                if keep.any() and (~keep).any():
+                    small = tuple(v - 1 if k == m else v for k, v in enumerate(shape))
+                    S = ttb.sptensor(subs[keep], vals[keep], small)
+                    S[subs[~keep]] = vals[~keep]
+        elif state == "from-tensor" and dt is None:
+            S = ttb.tensor(X.copy(order="F"), shape).to_sptensor()
+        elif state == "round-trip-permute" and X.ndim >= 2:
+            p = np.roll(np.arange(X.ndim), 1)
+            S = ttb.sptensor(subs, vals, shape).permute(p).permute(np.argsort(p))
+        elif state == "zeroed-by-assignment":
+            # one more nonzero first, then set it to zero through the public subscript assignment
+            zs = np.argwhere(X == 0)
+            if len(zs):
+                e = zs[int(rng.integers(0, len(zs)))][None, :]
+                S = ttb.sptensor(np.vstack([subs, e]), np.vstack([vals, np.ones((1, 1), dtype=vals.dtype)]), shape)
+                S[e] = np.zeros((1, 1), dtype=vals.dtype)
+    except Exception:  # noqa: BLE001
+        S = None
+    if S is not None and isinstance(S, ttb.sptensor) and tuple(int(v) for v in S.shape) == shape and _same(S, X):
+        return S, label or ("state-" + state)
+    if nnz == 0:
+        return ttb.sptensor(shape=shape), label or "state-ctor"
+    return ttb.sptensor(subs, vals, shape), label or "state-ctor"
 
 
-def as_ktensor(case, X):
-    """Kruskal holder: the born CP when there is one, else the fibre representation along `kmode`:
-    X = sum over fibres p of  x_p (in mode kmode) outer unit vectors (other modes)."""
+KTENSOR_STATES = ["ctor", "ctor", "normalize-into-mode", "normalize-into-mode", "normalize", "arrange", "redistribute", "f-order-input"]
+
+
+def _ktensor_parts(case, X):
+    """weights, factors (float) of the Kruskal form: the born CP when there is one, else the fibre representation
+    along `kmode`: X = sum over fibres p of  x_p (in mode kmode) outer unit vectors (other modes)."""
     if case["family"] == "cp":
         w, F = cp_parts(case)
-        return ttb.ktensor([f.copy() for f in F], w.copy())
+        return w.copy(), [f.copy() for f in F]
     km = case["kmode"]
     shape = X.shape
     others = [k for k in range(len(shape)) if k != km]
+    Xk = np.moveaxis(X, km, 0).reshape(shape[km], -1)  # C order over the other modes = itertools.product order
     cols = list(itertools.product(*[range(shape[k]) for k in others]))
-    cols = [c for c in cols if np.any(X[tuple(slice(None) if k == km else c[others.index(k)] for k in range(len(shape)))] != 0)]
-    if not cols:
-        cols = [tuple(0 for _ in others)]
-    R = len(cols)
+    keepi = [i for i in range(len(cols)) if np.any(Xk[:, i] != 0)]
+    if not keepi:
+        keepi = [0]
+    R = len(keepi)
     F = [np.zeros((I, R)) for I in shape]
-    for j, c in enumerate(cols):
-        idx = tuple(slice(None) if k == km else c[others.index(k)] for k in range(len(shape)))
-        F[km][:, j] = X[idx]
-        for k, i in zip(others, c):
-            F[k][i, j] = 1.0
-    return ttb.ktensor(F, np.ones(R))
+    for j, i in enumerate(keepi):
+        F[km][:, j] = Xk[:, i]
+        for k, idx in zip(others, cols[i]):
+            F[k][idx, j] = 1.0
+    return np.ones(R), F
 
 
-def as_ttensor(case, X, sparse_core):
-    """Tucker holder.  cp family: super-diagonal core with the CP factors.  Otherwise dense core: X rotated by an
-    orthogonal matrix per mode (factors undo it); sparse core: X with permuted indices, permutation-matrix factors."""
+def as_ktensor(case, X, with_label=False):
+    w, F = _ktensor_parts(case, X)
+    state = case.get("state", "ctor")
+    K = None
+    try:
+        if state == "f-order-input":
+            K = ttb.ktensor([np.asfortranarray(f) for f in F], w.copy())
+        elif state in ("normalize-into-mode", "normalize", "arrange", "redistribute"):
+            K = ttb.ktensor([f.copy() for f in F], w.copy())
+            k = int(case.get("tseed", 0)) % len(F)
+            if state == "normalize-into-mode":
+                K.normalize(weight_factor=k)
+            elif state == "normalize":
+                K.normalize()
+            elif state == "arrange":
+                K.arrange()
+            else:
+                K.redistribute(k)
+    except Exception:  # noqa: BLE001
+        K = None
+    if K is not None and isinstance(K, ttb.ktensor) and _same(K, X):
+        return (K, "state-" + state) if with_label else K
+    K = ttb.ktensor([f.copy() for f in F], w.copy())
+    return (K, "state-ctor") if with_label else K
+
+
+TTENSOR_STATES = ["ctor", "ctor", "derived-core", "derived-core", "f-order-factors", "shared-arrays"]
+
+
+def _ttensor_parts(case, X, sparse_core):
+    """core array, factor matrices of the Tucker form.  cp family: super-diagonal core with the CP factors.  Otherwise
+    dense core: X rotated by an orthogonal matrix per mode (factors undo it); sparse core, or integer storage, or the
+    block family (whose exact structure a rotation would blur): X with permuted indices, permutation-matrix factors."""
     shape = X.shape
     N = len(shape)
     if case["family"] == "cp":
@@ -156,8 +410,9 @@ def as_ttensor(case, X, sparse_core):
         core = np.zeros((R,) * N)
         for j in range(R):
             core[(j,) * N] = w[j]
-        fm = [f.copy() for f in F]
-    elif sparse_core:
+        return core, [f.copy() for f in F], "tucker-superdiagonal"
+    exact = sparse_core or int_dtype_of(case, X) is not None or (case["family"] == "block" and case.get("tseed", 0) % 2 == 0)
+    if exact:
         rng = np.random.default_rng(int(case["tseed"]))
         perms = [rng.permutation(I) for I in shape]
         core = X[np.ix_(*perms)]  # core[i..] = X[perm[i]..]
@@ -166,15 +421,65 @@ def as_ttensor(case, X, sparse_core):
             Pm = np.zeros((I, I))
             Pm[p, np.arange(I)] = 1.0  # X[a] = sum_i Pm[a, i] core[i]  with a = p[i]
             fm.append(Pm)
-    else:
-        Q = [orth(case["tseed"] + 31 * k, I, I) for k, I in enumerate(shape)]
-        core = ref.den_tucker(X, [q.T for q in Q])
-        fm = Q
+        return core, fm, "tucker-permutation"
+    Q = [orth(case["tseed"] + 31 * k, I, I) for k, I in enumerate(shape)]
+    return ref.den_tucker(X, [q.T for q in Q]), Q, "tucker-rotation"
+
+
+def as_ttensor(case, X, sparse_core, with_label=False, sparse_factors=False):
+    core, fm, form = _ttensor_parts(case, X, sparse_core)
+    dt = int_dtype_of(case, X) if ref.is_intvalued(core, *fm) else None
+    state = case.get("state", "ctor")
+    label = "state-ctor"
+    kw = {}
+    if dt is not None:
+        core = core.astype(dt)
+        fm = [f.astype(dt) for f in fm] if case.get("tseed", 0) % 3 else fm
+        label = "dtype-" + dt
+    c = None
     if sparse_core:
-        c = gen.build_sptensor(gen.sparse_case_from_dense(core))
+        sc = gen.sparse_case_from_dense(core)
+        if sc["subs"]:
+            subs = np.array(sc["subs"], dtype=int).reshape(len(sc["subs"]), core.ndim)
+            vals = np.array([core[tuple(s)] for s in subs]).reshape(-1, 1)
+            if state == "derived-core":
+                # stored order random, explicit zero, numpy-integer shape: states the checked constructor call accepts
+                rng = np.random.default_rng(int(case.get("tseed", 0)) + 11)
+                zs = np.argwhere(core == 0)
+                if len(zs):
+                    subs = np.vstack([subs, zs[:1]])
+                    vals = np.vstack([vals, np.zeros((1, 1), dtype=vals.dtype)])
+                p = rng.permutation(len(subs))
+                try:
+                    c = ttb.sptensor(subs[p], vals[p], tuple(np.int64(v) for v in core.shape))
+                    label = label if dt else "state-derived-core"
+                except Exception:  # noqa: BLE001
+                    c = None
+            if c is None:
+                c = ttb.sptensor(subs, vals, tuple(core.shape))
+        else:
+            c = ttb.sptensor(shape=tuple(core.shape))
     else:
-        c = ttb.tensor(core.copy(order="F"), tuple(core.shape))
-    return ttb.ttensor(c, fm)
+        if state == "derived-core" and dt is None:
+            g = gen.build_tensor(dict(shape=list(core.shape), data=core.ravel(order="F").tolist(), prov="grown"))
+            if gen.is_grown(g) and _same(g, core):
+                c, label = g, "state-derived-core"
+        if c is None:
+            c = ttb.tensor(np.asfortranarray(core), tuple(core.shape))
+    if sparse_factors:
+        # the constructor admits scipy coo matrices as factor matrices; some stay dense when the state says so
+        keep_dense = (case.get("tseed", 0) % len(fm)) if state in ("f-order-factors", "shared-arrays") else -1
+        fm = [f if k == keep_dense else sparse.coo_matrix(f) for k, f in enumerate(fm)]
+        label = label if dt else ("state-mixed-factors" if keep_dense >= 0 else label)
+        form += ",coo-factors"
+    elif state == "f-order-factors":
+        fm = [np.asfortranarray(f) for f in fm]
+        label = label if dt else "state-f-order-factors"
+    elif state == "shared-arrays":
+        kw = dict(copy=False)
+        label = label if dt else "state-shared-arrays"
+    T = ttb.ttensor(c, fm, **kw)
+    return (T, label + "," + form) if with_label else T
 
 
 # ----------------------------------------------------------------------------------------------------------------
@@ -207,26 +512,39 @@ def _shape_with_mode(draw, tier, min_order=1):
 
 
 SEEDS = st.integers(0, 2 ** 20)
+SCALES = [1.0, 1.0, 37.5, 1e3, 1e-3, 1e-6, 1e6]
 
 
 @st.composite
-def model_case(draw, tier, families=("spectral", "spectral", "cp", "sparse")):
+def _common_fields(draw, states):
+    """holder state (each holder reads it from its own list), storage dtype (used where the data are integer valued and
+    the class admits integer storage), the Python / numpy type n and r are passed as"""
+    return dict(
+        state=draw(st.sampled_from(list(states))),
+        dtype=draw(st.sampled_from(["float", "float", "float", "float", "float", "int64", "int32", "uint8"])),
+        npint=draw(st.sampled_from([None, None, "int64", "int32"])),
+    )
+
+
+@st.composite
+def model_case(draw, tier, families=("spectral", "spectral", "cp", "sparse"), states=("ctor",)):
     fam = draw(st.sampled_from(list(families)))
     shape, n = draw(_shape_with_mode(tier))
     N = len(shape)
     c = dict(family=fam, shape=shape, n=n, np_seed=draw(st.integers(0, 2 ** 31 - 1)), flipsign=draw(st.sampled_from([True, True, False])),
              stored=draw(st.sampled_from(["sorted", "reverse"])), tseed=draw(SEEDS), kmode=draw(st.integers(0, N - 1)))
+    c.update(draw(_common_fields(states)))
     I = shape[n]
     if fam == "spectral":
         P = ref.prod(shape) // I
         m = min(I, P)
         kind = draw(st.sampled_from(SPECTRA))
-        scale = draw(st.sampled_from([1.0, 1.0, 37.5, 1e3, 1e-3]))
+        scale = draw(st.sampled_from(SCALES))
         c.update(spectrum=kind, sing=spectrum(kind, m, scale), useed=draw(SEEDS), wseed=draw(SEEDS))
     elif fam == "cp":
         R = draw(st.integers(1, max(1, min(min(shape), 4))))
         base = draw(st.sampled_from(["geometric", "close-pair", "slow-decay"]))
-        sig = spectrum(base, R, draw(st.sampled_from([1.0, 8.0, 0.05])))
+        sig = spectrum(base, R, draw(st.sampled_from([1.0, 8.0, 0.05, 1e-6, 1e6])))
         signs = draw(st.lists(st.sampled_from([1.0, 1.0, -1.0]), min_size=R, max_size=R))
         c.update(rank=R, sigma=[a * b for a, b in zip(sig, signs)], fseed=draw(SEEDS), spectrum="cp-" + base)
         if draw(st.booleans()):
@@ -240,13 +558,162 @@ def model_case(draw, tier, families=("spectral", "spectral", "cp", "sparse")):
         flat = gen._pattern_values(draw, n_cells, pattern, "int")
         if all(v == 0 for v in flat):
             flat[draw(st.integers(0, n_cells - 1))] = 2.0
+        if c["dtype"] == "uint8":
+            flat = [abs(v) for v in flat]
         A = gen.arr_F(shape, flat)
         s2 = gen.sparse_case_from_dense(A)
         c.update(subs=s2["subs"], vals=s2["vals"], spectrum="sparse-" + pattern)
+        # the property is scale free: integer storage keeps the integers, float storage also takes tiny / huge data
+        c["vscale"] = 1.0 if c["dtype"] in INT_DTYPES else draw(st.sampled_from([1.0, 1.0, 1e-6, 1e6, 0.3]))
     # r: both ends and the interior (the interior is the non-trivial class and needs I >= 3)
     inner = list(range(2, I))
     c["r"] = draw(st.sampled_from([1, I, max(1, I - 1)] + inner + inner))
     return c
+
+
+# mode sizes above the iterative solver's thresholds: ARPACK's default subspace is min(I, max(2r+1, 20)) vectors, so
+# I <= 20 always spans everything (any start vector, any tolerance works), I > 20 does not, and r >= 10 moves the
+# subspace size itself
+LARGE_SIZES = {"quick": [21, 22, 25, 32, 40], "thorough": [21, 22, 23, 25, 32, 40, 41, 48, 64]}
+LARGE_REST = [[8], [12], [16], [30], [3, 4], [4, 3], [6, 5], [5, 6], [2, 3, 2], [24], [2, 13]]
+
+
+@st.composite
+def large_case(draw, tier, states=("ctor",)):
+    """mode n larger than 20: block family (exact structure of the leading vectors) and spectral family (generic ones)"""
+    fam = draw(st.sampled_from(["block", "block", "spectral"]))
+    I = draw(st.sampled_from(LARGE_SIZES[tier]))
+    rest = list(draw(st.sampled_from(LARGE_REST)))
+    N = len(rest) + 1
+    n = draw(st.integers(0, N - 1))
+    shape = rest[:n] + [I] + rest[n:]
+    P = ref.prod(rest)
+    c = dict(family=fam, shape=shape, n=n, np_seed=draw(st.integers(0, 2 ** 31 - 1)), flipsign=draw(st.sampled_from([True, True, False])),
+             stored=draw(st.sampled_from(["sorted", "reverse"])), tseed=draw(SEEDS), kmode=draw(st.integers(0, N - 1)))
+    c.update(draw(_common_fields(states)))
+    if fam == "block":
+        nb = draw(st.sampled_from([2, 3, 4, 6, 12, 14]))
+        structs = [draw(st.sampled_from(LEAD_STRUCTS))] + draw(st.lists(st.sampled_from(sorted(STRUCTS)), min_size=nb - 1, max_size=nb - 1))
+        blocks, filler = expand_blocks(I, P, structs, draw(SEEDS), draw(st.integers(30, 60)))
+        for b in blocks:
+            b.pop("struct")
+        c.update(blocks=blocks, filler=filler, spectrum="block-" + structs[0],
+                 vscale=1.0 if c["dtype"] in INT_DTYPES else draw(st.sampled_from([1.0, 1.0, 1e-6, 1e6, 0.3])))
+        nsep = len(blocks)
+    else:
+        m = min(I, P)
+        kind = draw(st.sampled_from(["slow-decay", "slow-decay", "geometric", "close-pair", "dominant"]))
+        c.update(spectrum=kind, sing=spectrum(kind, m, draw(st.sampled_from(SCALES))), useed=draw(SEEDS), wseed=draw(SEEDS))
+        nsep = m
+    # r: few, around ten (the subspace size changes at r = 10), up to the number of constructed leading values, and the
+    # boundary between the solvers
+    pool = [1, 1, 2, 3, 5] + [v for v in (9, 10, 11, 12, 13) if v < nsep] + [max(1, nsep - 1), max(1, nsep - 1)] + [I - 2, I - 1, I]
+    c["r"] = draw(st.sampled_from([v for v in pool if 1 <= v <= I]))
+    return c
+
+
+EDIT_KINDS = ["scale-slice", "scale-slice", "shear", "shear", "set-entry", "scale-all", "zero-slice", "move-entry"]
+EDIT_VALUES = [4.0, -3.0, 0.5, 2.0, -1.0, 1.75]
+
+
+@st.composite
+def history_case(draw, tier, states=("ctor",)):
+    """a model plus 2..4 steps on ONE object: optional in-place edit of one attribute array, then nvecs(n, r, flipsign)
+    on the object (or on a fresh object made from copies of its current attributes), optionally overwriting the
+    returned array afterwards"""
+    big = draw(st.integers(0, 9)) == 0
+    if big:
+        c = draw(large_case(tier, states=states))
+    else:
+        c = draw(model_case(tier, families=("spectral", "spectral", "cp", "sparse"), states=states))
+    c["dtype"] = "float"
+    shape = c["shape"]
+    N = len(shape)
+    k = draw(st.integers(2, 4))
+    steps = []
+    for i in range(k):
+        n = draw(st.integers(0, N - 1)) if i else c["n"]
+        I = shape[n]
+        r = c["r"] if i == 0 else draw(st.sampled_from([1, I, max(1, I - 1), max(1, I - 2)] + list(range(2, min(I, 6))) * 2))
+        edit = None
+        if i and draw(st.integers(0, 3)) > 0:
+            edit = dict(kind=draw(st.sampled_from(EDIT_KINDS)), arr=draw(st.integers(0, 7)), axis=draw(st.integers(0, 3)),
+                        i=draw(st.integers(0, 63)), j=draw(st.integers(0, 63)), val=draw(st.sampled_from(EDIT_VALUES)))
+        steps.append(dict(n=n, r=min(r, I), flipsign=draw(st.sampled_from([True, True, False])) if i else c["flipsign"], edit=edit,
+                          fresh=draw(st.integers(0, 5)) == 0 if i else False, clobber=draw(st.integers(0, 3)) == 0,
+                          np_seed=draw(st.integers(0, 2 ** 31 - 1))))
+    if not any(s["edit"] for s in steps[1:]) and draw(st.booleans()):
+        steps[-1]["edit"] = dict(kind="shear", arr=draw(st.integers(0, 7)), axis=0, i=draw(st.integers(0, 63)), j=draw(st.integers(0, 63)), val=2.0)
+    c["steps"] = steps
+    return c
+
+
+def attribute_arrays(obj):
+    """the arrays that define the state of a holder (edited in place by the history cells)"""
+    if isinstance(obj, ttb.tensor):
+        return [obj.data]
+    if isinstance(obj, ttb.sptensor):
+        return [obj.vals]
+    if isinstance(obj, ttb.ktensor):
+        return [obj.weights] + list(obj.factor_matrices)
+    if isinstance(obj, ttb.ttensor):
+        core = obj.core.data if isinstance(obj.core, ttb.tensor) else obj.core.vals
+        return [f.data if sparse.issparse(f) else f for f in obj.factor_matrices] + [core]
+    raise TypeError(type(obj))
+
+
+def apply_edit(obj, e):
+    """edit one attribute array of the holder in place; returns a label.  Only array contents change: no attribute is
+    rebound, no shape changes."""
+    arrs = [a for a in attribute_arrays(obj) if a.size]
+    if not arrs:
+        return "edit-none"
+    a = arrs[e["arr"] % len(arrs)]
+    kind = e["kind"]
+    if kind == "move-entry":
+        # sparse data: one stored entry gets another (free) subscript, written into the subscript array in place
+        sp = obj if isinstance(obj, ttb.sptensor) else (obj.core if isinstance(obj, ttb.ttensor) and isinstance(obj.core, ttb.sptensor) else None)
+        if sp is not None and sp.subs.size:
+            shape = tuple(int(v) for v in sp.shape)
+            total = ref.prod(shape)
+            taken = {tuple(int(v) for v in row) for row in sp.subs}
+            if len(taken) < total:
+                lin = (e["j"] * 7919) % total
+                while tuple(int(v) for v in np.unravel_index(lin, shape)) in taken:
+                    lin = (lin + 1) % total
+                sp.subs[e["i"] % sp.subs.shape[0], :] = np.unravel_index(lin, shape)
+                return "edit-move-entry"
+        kind = "set-entry"
+    if kind == "shear" and not (a.ndim == 2 and a.shape[1] >= 2):
+        kind = "scale-slice"
+    if kind == "scale-all":
+        a *= e["val"]
+    elif kind == "set-entry":
+        idx = np.unravel_index(e["i"] % a.size, a.shape)
+        a[idx] = a[idx] * e["val"] + e["val"]
+    elif kind == "shear":
+        j = e["j"] % a.shape[1]
+        j2 = (j + 1 + e["i"] % (a.shape[1] - 1)) % a.shape[1]
+        a[:, j] += e["val"] * a[:, j2]
+    else:
+        ax = e["axis"] % a.ndim
+        sl = [slice(None)] * a.ndim
+        sl[ax] = e["i"] % a.shape[ax]
+        a[tuple(sl)] *= 0.0 if kind == "zero-slice" else e["val"]
+    return "edit-" + kind
+
+
+def fresh_copy(obj):
+    """a new object made through the constructor from copies of the current attributes"""
+    if isinstance(obj, ttb.tensor):
+        return ttb.tensor(np.array(obj.data, order="F"), tuple(int(v) for v in obj.shape))
+    if isinstance(obj, ttb.sptensor):
+        return ttb.sptensor(np.array(obj.subs), np.array(obj.vals), tuple(int(v) for v in obj.shape))
+    if isinstance(obj, ttb.ktensor):
+        return ttb.ktensor([np.array(f) for f in obj.factor_matrices], np.array(obj.weights))
+    if isinstance(obj, ttb.ttensor):
+        return ttb.ttensor(fresh_copy(obj.core), [f.copy() if sparse.issparse(f) else np.array(f) for f in obj.factor_matrices])
+    raise TypeError(type(obj))
 
 
 def enum_models(tier):
